@@ -202,50 +202,41 @@ def f_apply(bd, op):
     col.tick(1, ("f", cfg["name"], src, length, ret) if nontrivial else None)
 
     def bad(k, **kw):
-        bd.dead = True
+        bd.dead = True  # the branch is not continued once implementation and reference disagree
         col.violation(
             SIG.format(F_ENTRY, k),
             dict(
                 config=dict(long_window=cfg["win"], threshold=cfg["thr"], reset_weight=cfg["w"], start_iterations=cfg["start"]),
                 history=bd.hist, iterations_before=it, returned=[bool(upd), int(rel)],
-                reference=dict(checkpoint=r_upd, released=r_rel, window_event=kind, switch=switched),
+                reference=dict(checkpoint=r_upd, released=r_rel, window_event=kind, switch=switched,
+                               best=ref.best, window=ref.window),
                 state_after=dict(cs.__dict__), **kw,
             ),
         )
 
-    # released steps / window boundaries
-    if kind == "open":
-        if rel != 0:
-            bad(K_OPEN)
-    else:
-        if rel == 0:
-            bad(K_NOCUT if kind == "cut" else K_NOREL)
-        elif rel != r_rel:
-            bad(K_RELEASED)
-    # counters reset after a release (equal to a fresh state's)
-    if rel != 0:
-        fresh = CheckpointState()
-        if (cs.episodes_since_udpate, cs.timesteps_since_upate, cs.min_return) != (
-            fresh.episodes_since_udpate, fresh.timesteps_since_upate, fresh.min_return,
-        ):
-            bad(K_RESET)
-    # checkpoint flag
-    if upd and not r_upd:
-        bad(K_CKPT_BAD)
-    if r_upd and not upd:
-        bad(K_CKPT_MISS)
-    # best minimum so far
-    if ref.best is None:
-        if not cs.best_min_return < low:
-            bad(K_BEST)
-    elif cs.best_min_return != ref.best:
-        bad(K_BEST)
-    # window size, switch once
     if cs.max_episodes_before_update != window_before:
         bd.impl_switches += 1
-    if cs.max_episodes_before_update != ref.window:
+    fresh = CheckpointState()
+    # one failure kind per transition: the first disagreement in the order of the property text
+    if kind == "open" and rel != 0:
+        bad(K_OPEN)  # released steps / window boundaries
+    elif kind != "open" and rel == 0:
+        bad(K_NOCUT if kind == "cut" else K_NOREL)
+    elif rel != r_rel:
+        bad(K_RELEASED)
+    elif rel != 0 and (cs.episodes_since_udpate, cs.timesteps_since_upate, cs.min_return) != (
+        fresh.episodes_since_udpate, fresh.timesteps_since_upate, fresh.min_return,
+    ):
+        bad(K_RESET)  # counters after a release equal a fresh state's
+    elif upd and not r_upd:
+        bad(K_CKPT_BAD)
+    elif r_upd and not upd:
+        bad(K_CKPT_MISS)
+    elif (not cs.best_min_return < low) if ref.best is None else (cs.best_min_return != ref.best):
+        bad(K_BEST)
+    elif cs.max_episodes_before_update != ref.window:
         bad(K_WINDOW)
-    if bd.impl_switches > 1:
+    elif bd.impl_switches > 1:
         bad(K_TWICE)
     bd.it = it + rel  # train_td7 performs `rel` iterations before the next assessment
 
@@ -364,7 +355,7 @@ def loop_items(tier, seed):
     if tier == "quick":
         plan = [("A", "fall")]
     else:
-        plan = [("A", "fall"), ("A", "rise-fall"), ("A", "flat"), ("B", "rise-fall"), ("B", "fall"), ("C", "zigzag")]
+        plan = [("A", "fall"), ("A", "rise-fall"), ("A", "flat"), ("B", "rise-fall"), ("C", "zigzag")]
     for cfg, pat in plan:
         for s in scripts_:
             out.append(dict(name=f"loop-{cfg}-{pat}-{s}", part="loop", cfg=cfg, pattern=pat, script=s, seed=seed))
@@ -455,15 +446,15 @@ def l_work(item, col):
         e = snap(lg.mods["fixed_embedding"]) if "fixed_embedding" in lg.mods else init_emb
         return a, e
 
-    def check_drift(where):
+    def check_drift(where, pos):
         for key, name in (("actor_checkpoint", "actor"), ("fixed_embedding_checkpoint", "emb")):
             if key in seen_ckpt and snap(seen_ckpt[key]) != ckpt_now[name]:
-                problems.append((K_DRIFT, dict(where=where, module=key)))
+                problems.append((pos, K_DRIFT, dict(where=where, module=key)))
 
     def on_step(e):
         lg.events.append(("env", e.t))
         acting[e.t] = acting_snap()
-        check_drift(f"before env step {e.t}")
+        check_drift(f"before env step {e.t}", e.t - 0.5)
 
     def on_epoch(key, value):
         if key in ("actor_checkpoint", "fixed_embedding_checkpoint"):
@@ -475,7 +466,7 @@ def l_work(item, col):
             col.tick(1)
             col.outcome("l_checkpoint_contents_compared")
             if ckpt_now[name] != want:
-                problems.append((K_CONTENT, dict(module=key, at_env_step=env.t - 1)))
+                problems.append((env.t - 1 + 0.25, K_CONTENT, dict(module=key, at_env_step=env.t - 1)))
             if want != (init_actor if name == "actor" else init_emb):
                 col.outcome("l_checkpoints_of_a_trained_policy")
 
@@ -494,7 +485,7 @@ def l_work(item, col):
         col.tick(1)
         col.violation(SIG.format(L_ENTRY, K_RAISED), dict(detail0, error=f"{type(e).__name__}: {e}"[:300]))
         return
-    check_drift("after the run")
+    check_drift("after the run", T + 1)
 
     # ground truth from the environment's log, prediction from the window machine
     steps = [(e[3], bool(e[4] or e[5])) for e in env.log if e[0] == "step"]
@@ -517,12 +508,12 @@ def l_work(item, col):
         col.tick(1, ("l", name, t) if assessed else None)
         d = dict(detail0, env_step=t, predicted=p, critic_updates=upd[t], checkpoint_copies=copies[t],
                  per_step_updates=upd, per_step_predicted=[q["released"] for q in pred])
-        if upd[t] != p["released"]:
-            col.violation(SIG.format(L_ENTRY, K_UPDATES), d)
         if copies[t] and not p["checkpoint"]:
-            col.violation(SIG.format(L_ENTRY, K_EV_BAD), d)
-        if p["checkpoint"] and not copies[t]:
-            col.violation(SIG.format(L_ENTRY, K_EV_MISS), d)
+            problems.append((t, K_EV_BAD, d))
+        elif p["checkpoint"] and not copies[t]:
+            problems.append((t + 0.1, K_EV_MISS, d))
+        if upd[t] != p["released"]:
+            problems.append((t + 0.2, K_UPDATES, d))
         if p["kind"] == "complete":
             col.outcome("l_windows_completed_with_checkpoint")
             if p["released"] != p["length"]:
@@ -551,14 +542,20 @@ def l_work(item, col):
     want_emb = acting[last[-1]][1] if last else init_emb
     jax.effects_barrier()
     if snap(res.actor) != want_actor or snap(res.fixed_embedding) != want_emb:
-        problems.append((K_RESULT, dict(last_predicted_checkpoint_step=last[-1] if last else None)))
+        problems.append((T + 2, K_RESULT, dict(last_predicted_checkpoint_step=last[-1] if last else None)))
     if last and want_actor != init_actor:
         col.outcome("l_runs_returning_a_trained_checkpoint")
     if snap(res.actor) != snap(st.actor):
         col.outcome("l_runs_where_returned_checkpoint_differs_from_final_actor")
-    for kind, d in problems:
-        col.violation(SIG.format(L_ENTRY, kind), dict(detail0, **d, per_step_updates=upd,
-                                                     per_step_predicted=[q["released"] for q in pred]))
+    if problems:
+        # one signature per run: the earliest observable divergence (later ones are its consequences)
+        _, kind, d = min(problems, key=lambda q: q[0])
+        full = dict(detail0)
+        full.update(d)
+        full.update(per_step_updates=upd, per_step_predicted=[q["released"] for q in pred],
+                    per_step_checkpoint_copies=copies, per_step_predicted_checkpoints=[q["checkpoint"] for q in pred],
+                    later_divergences=sorted({q[1] for q in problems} - {kind}))
+        col.violation(SIG.format(L_ENTRY, kind), full)
     if any(p["kind"] == "cut" and p["released"] != p["length"] for p in pred) or script == "cT" * (T // 2):
         col.sample(dict(part="loop", script=script, levels=levels, config=item["cfg"], critic_updates_per_step=upd,
                         checkpoint_copies_per_step=copies,
